@@ -121,9 +121,9 @@ func runMapOrder(payload string) string {
 }
 
 func genMapOrder(g *G, tier string, emit func(string)) {
-	n := 3000
+	n := 10000
 	if tier == "thorough" {
-		n = 60000
+		n = 200000
 	}
 	// fixed key sets: prefixes of each other, equal lengths, multi-byte UTF-8, empty key
 	keysets := [][]string{{"a", "aa", "aaa", "b"}, {"b", "a", "ab", "ba"}, {"é", "e", "f", "zz"}, {"", "a", "\x00", "B"}, {"k10", "k9", "k1", "k"}, {"aaa", "ab", "b", "", "ba", "aab"}}
